@@ -582,8 +582,11 @@ directive's set both match. -/
 
 def httpScheme : Bytes := [104, 116, 116, 112, 58, 47, 47]   -- "http://"
 
+def httpsScheme : Bytes := [104, 116, 116, 112, 115, 58, 47, 47]   -- "https://"
+
 def dropScheme (key : Bytes) : Bytes :=
-  if hasPrefix key httpScheme then key.drop httpScheme.length else key
+  if hasPrefix key httpScheme then key.drop httpScheme.length
+  else if hasPrefix key httpsScheme then key.drop httpsScheme.length else key
 
 /-- `host, port, err := net.SplitHostPort(s)`, on error retried with `s + ":"`, else `s` itself -/
 def addrHost (hostport : Bytes) : Bytes :=
@@ -602,6 +605,8 @@ inductive TokMode where
   | none      -- `respond "hit"`
   | star      -- `respond * "hit"`
   | implicit  -- `respond /path "hit"`
+  | handle    -- `handle /path { respond "hit" }` (also `route`)
+  | handlePath -- `handle_path /path { respond "hit" }`: the same path matcher, then a prefix strip
   | named     -- `@m { host …; path … }` + `respond @m "hit"`
 deriving DecidableEq, Repr
 
@@ -616,6 +621,8 @@ def tokCase (thr : Nat) (mode : TokMode) (hosts pats : List Bytes) (rhost path e
   | .none => .res true
   | .star => .res true
   | .implicit => .res (pathCase pats path esc)
+  | .handle => .res (pathCase pats path esc)
+  | .handlePath => .res (pathCase pats path esc)
   | .named =>
     resAnd (if hosts.isEmpty then .res true else hostCase thr hosts rhost)
            (.res (pats.isEmpty || pathCase pats path esc))
@@ -763,8 +770,9 @@ Every name phase 1 read out of the server's provisioned host matchers (global pl
 expanded) becomes a "redirect domain"; the domains (a map's keys: no exact repeats) are sorted
 byte-wise (`slices.Sorted`) and wrapped as `MatchHost(domains)` in a redirect route whose
 target carries the server's port; behind it sits a catch-all redirect to the default HTTPS
-port.  "note that we happen to bypass Provision and Validate steps for these matcher modules":
-in the code as it is (`provisioned = false`) the host matcher of that route is used as built. -/
+port.  These matcher modules are not loaded from JSON; the code as it is (`provisioned = true`)
+de-duplicates the names case-insensitively and calls `Provision` on the matcher by hand;
+`provisioned = false` is the code before that `fix:` commit, which used the matcher as built. -/
 
 def insertBytes (x : Bytes) : List Bytes → List Bytes
   | [] => [x]
